@@ -101,6 +101,8 @@ Obs ==
                     mp |-> MeasureStringT(F, Sty, Len(ls[j]), <<Pos[1], y>>, cfg.base).next]],
       top |-> IF cfg.base = 0 THEN [used |-> 0, ret |-> <<0, 0>>, map |-> EmptyRaster]
               ELSE LET d == Draw([TS EXCEPT !.base = 0], cfg.text, Pos) IN [used |-> 1, ret |-> d.ret, map |-> d.map],
+      \* the transcribed machine never reads the target's bounding box: on every target it is the same run
+      small |-> << [box |-> <<0, 0, 0, 0>>, ret |-> whole.ret, map |-> whole.map] >>,
       chains |-> IF ~single THEN <<>>
                  ELSE [i \in 1..(Len(cfg.text) + 1) |->
                          LET k == i - 1
